@@ -29,7 +29,8 @@ RULE = ("cell = (base kind in {measure, density}, R in 1..4 with per-component l
         "(value, mass one, mean, variance); tolerance 1e-8 x untruncated integral of |x|^k u; "
         "non-trivial: all; distinct = cell tuple")
 
-REGIMES = ("two-sided", "lower", "upper", "far-tail", "asymmetric", "moderate-tail")
+REGIMES = ("two-sided", "lower", "upper", "far-tail", "asymmetric", "moderate-tail",
+           "symmetric-exact")
 
 
 def cells(tier, seed):
@@ -109,6 +110,26 @@ def limits(rng, reg, mu, sd):
     return lo[:, None], hi[:, None]
 
 
+def mk_dyadic(mk, rng, R):
+    """parameters that are exact in binary (precision 4^j, mean a multiple of 1/2) so that limits
+    mean +- k sd are *exactly* symmetric in standardised coordinates (alpha == -beta bit for bit)."""
+    L = build.lib()
+    lam = 4.0 ** rng.integers(-1, 3, R)
+    mu = rng.integers(-4, 5, R) * 0.5
+    k = rng.choice([0.5, 1.0, 1.5, 2.0, 3.0], R)
+    sd = 1.0 / np.sqrt(lam)
+    lo, hi = (mu - k * sd)[:, None], (mu + k * sd)[:, None]
+    Lam, nu = lam[:, None, None], (lam * mu)[:, None]
+    if mk == "pdf":
+        u = L.pdf.GaussianPDF(Sigma=J(1.0 / Lam), mu=J(mu[:, None]))
+        lb = -orc.gauss_lnZ(Lam, nu)
+    else:
+        lb = rng.integers(-3, 4, R) * 0.5
+        u = L.measure.GaussianMeasure(Lambda=J(Lam), nu=J(nu), ln_beta=J(lb))
+    t = build.Truth(Lambda=Lam, nu=nu, ln_beta=lb, mu=mu[:, None], Sigma=1.0 / Lam)
+    return u, t, lo, hi
+
+
 def run_cell(cell, rec, seed):
     from gaussian_toolbox.experimental import truncated_measure as tm
 
@@ -116,9 +137,13 @@ def run_cell(cell, rec, seed):
     L = build.lib()
     for rep in range(cell["reps"]):
         rng = gen.rng_for(seed, "C20", mk, R, reg, rep)
-        u, t = build.mk_measure(mk, rng, R, 1, kappa=1.0)
-        mu, sd = t.mu[:, 0], np.sqrt(t.Sigma[:, 0, 0])
-        lo, hi = limits(rng, reg, mu, sd)
+        if reg == "symmetric-exact":
+            u, t, lo, hi = mk_dyadic(mk, rng, R)
+            mu, sd = t.mu[:, 0], np.sqrt(t.Sigma[:, 0, 0])
+        else:
+            u, t = build.mk_measure(mk, rng, R, 1, kappa=1.0)
+            mu, sd = t.mu[:, 0], np.sqrt(t.Sigma[:, 0, 0])
+            lo, hi = limits(rng, reg, mu, sd)
         info = {"mk": mk, "R": R, "regime": reg, "lower": lo[:, 0], "upper": hi[:, 0]}
         rec.cell([mk, R, reg], True)
         kw = {}
@@ -245,11 +270,28 @@ def run_cell(cell, rec, seed):
                 # the standard deviation read-out: judged where the variance is resolved (a
                 # variance at rounding level of its own cancellation may come out negative)
                 if np.all(1e-6 * np.asarray(var_scale) < np.asarray(var_ref)):
-                    sd = lc.call(rec, "get_std", lambda: P.get_std(), d)
-                    if sd is not None:
-                        rec.close("truncated std", np.asarray(sd).reshape(R), np.sqrt(var_ref),
+                    sdev = lc.call(rec, "get_std", lambda: P.get_std(), d)
+                    if sdev is not None:
+                        rec.close("truncated std", np.asarray(sdev).reshape(R), np.sqrt(var_ref),
                                   ns=np.asarray(var_scale) / (2.0 * np.sqrt(var_ref)), detail=d,
                                   mech=f"normalised-std:{name}")
+        # ---- the measure the normalised variants were built on is still the same function: a
+        # truncated measure built on it *now*, and the one built before, still give u on [a,b]
+        T2 = lc.call(rec, "TruncatedGaussianMeasure", lambda: tm.TruncatedGaussianMeasure(
+            measure=u, **kw), info)
+        if T2 is not None:
+            g = lc.call(rec, "integrate(1)", lambda: T2.integrate("1"), info)
+            if g is not None:
+                rec.close("mass of a truncated measure built after the normalised variants",
+                          np.asarray(g).reshape(R), ref[:, 0], ns=sc[:, 0], detail=info,
+                          mech="measure-changed-by-normalised-variant:integral")
+            for nm, TT in (("built after", T2), ("built before", T)):
+                got = lc.call(rec, "__call__", lambda: TT(J(xs)), info)
+                if got is not None:
+                    rec.close(f"u(x) inside, 0 outside ({nm} the normalised variants)", got,
+                              exp_val, ns=np.exp(lu) * orc.factor_ln_abs(
+                                  t.Lambda, t.nu, t.ln_beta, xs) + 1e-280, detail=info,
+                              mech="measure-changed-by-normalised-variant:value")
         if rep == 0:
             rec.sample({"case": info, "mpmath_integrals_k0..6": ref})
 
